@@ -280,7 +280,10 @@ impl<K: Kind, S: SStrat<K>> World<K, S> {
                 return Err(format!("[{}] after {}: value {} has strong count {} but {} owner(s) (+{} live guards)", S::NAME, what, id, strong, base, t.guards));
             }
             let d = t.drops.load(Ordering::SeqCst);
-            if d > 1 || (d == 1 && strong != 0) || (base + t.guards == 0 && d != 1) {
+            // destroyed exactly once, exactly when nobody needs it: not while an owner *or a guard*
+            // exists (a guard that only borrows keeps the strong count at the owners' number, so
+            // the count alone does not show a destruction under it), not later than the last one
+            if d > 1 || (d == 1 && strong != 0) || (d == 1 && base + t.guards > 0) || (base + t.guards == 0 && d != 1) {
                 return Err(format!("[{}] after {}: value {} destroyed {} times with strong count {} and {} owners/{} guards", S::NAME, what, id, d, strong, base, t.guards));
             }
         }
@@ -521,7 +524,7 @@ impl<K: Kind, S: SStrat<K>> World<K, S> {
         self.guards.push((g, id, usize::MAX));
     }
 
-    fn finish(mut self) -> Result<SeqStats, String> {
+    fn finish(&mut self) -> Result<SeqStats, String> {
         // drop guards, handles, containers; afterwards only the pool owns anything
         while let Some((g, id, _)) = self.guards.pop() {
             drop(g);
@@ -552,17 +555,26 @@ impl<K: Kind, S: SStrat<K>> World<K, S> {
                 return Err(format!("[{}] pool value {} has strong count {} at the end", S::NAME, id, t.weak.strong_count()));
             }
         }
-        Ok(self.stats)
+        Ok(self.stats.clone())
     }
 }
 
 fn run_one<K: Kind, S: SStrat<K>>(p: &SProg) -> Result<SeqStats, String> {
     let mut w = World::<K, S>::new();
     for (i, op) in p.ops.iter().enumerate() {
-        w.step(op)?;
-        w.check(&format!("op {} {:?}", i, op))?;
+        let r = w.step(op).and_then(|_| w.check(&format!("op {} {:?}", i, op)));
+        if let Err(m) = r {
+            // nothing is released in a state the model does not understand (a double release
+            // would corrupt the heap of the process the shrinker goes on using)
+            std::mem::forget(w);
+            return Err(m);
+        }
     }
-    w.finish()
+    let r = w.finish();
+    if r.is_err() {
+        std::mem::forget(w);
+    }
+    r
 }
 
 /// run the program under all three strategies; results must match the model in each
